@@ -30,11 +30,38 @@ CHECKS = {
  "C10": ("Kernel-checked complete tables for l <= 10 (decide +kernel): every generated function is a homogeneous harmonic polynomial (genuine MvPolynomial Laplacian via laplacian_sound), rows are orthonormal in the metric of unit-normalised Cartesians for every accepted order/sign convention, cosine/sine partners are f*Re(x+iy)^m, f*Im(x+iy)^m with the same f positive at the pole, label validation = permutation of the canonical labels with one optional leading '-'; default orders extracted from the source by the translator and compared with the model's by decide; compiled model vs generate_transformation for all l <= 10, Cartesian permutations, order/sign patterns, malformed labels",
          "quantifier is finite and enumerated completely; numpy float evaluation of the closed-form coefficients compared at 1e-13 relative",
          "Lean 4 proof by complete kernel enumeration + translator + differential correspondence"),
+ "C06": ("Lean theorems in a differential ring with three commuting derivations: the half-range Leibniz loop of evaluate_deriv_density equals d^L rho for every order triple when gamma is symmetric (and is wrong without symmetry: explicit counter-example), gradient/Laplacian/Hessian forms equal the derivatives, Hessian symmetric with trace = Laplacian, t_alpha = t_+ + alpha*Laplacian, clipping rule; the forms are tied to the code by exact probing (translator tr_forms.py runs the real functions with indicator stubs; kernel-checked obligation forms_ok); end-to-end correspondence of every density function with the defining sums built from the model's derivative values, both back-ends, rectangular transforms, thresholds bracketing the clip boundary",
+         "a differential ring models smooth functions on R^3 (standard, instance given for polynomials); non-negativity for PSD gamma is observed (no rejection), not proved",
+         "Lean 4 proof + exact-probing translator with decide obligation + differential correspondence"),
+ "C11": ("Lean theorems: block symmetries at specification level that justify the code's filling by symmetry (overlap/moment: commutativity of the integrand; kinetic: two integrations by parts; momentum type: antisymmetry + conjugate fill; point charge: swap symmetry of the Rys form); the model itself computes every orientation directly; checks: every public function on all permutations of 2-5 shells equals the index-permuted array, symmetric/Hermitian/eight-fold symmetry, shell blocks in both (pairs) and all eight (quartets) orientations incl. tight/diffuse quartets (recorded finding F10)",
+         "eight-fold symmetry of the repulsion spec is not a separate theorem (follows from commutativity in the Rys form; checked by correspondence)",
+         "Lean 4 proof of block symmetries + relational checks on the implementation + correspondence"),
+ "C12": ("Lean theorems: all recursion parameters, tables and overlap/moment/derivative/kinetic blocks are invariant under a common translation of centres and origin; reflection parity of the one-dimensional factors; checks: every public function under all 48 signed axis permutations (exact index permutation) and random proper/improper orthogonal matrices with translations, using exact shell representation matrices; invariants (density, t+, Laplacian, ESP); angular momentum shifts by d x p",
+         "PARTIAL: covariance under general rotations is verified numerically only (not a theorem); Coulomb-type blocks' translation invariance follows from the same parameter lemma but is not stated separately",
+         "Lean 4 proof (translations, reflections) + relational checks with representation matrices"),
+ "C13": ("Lean theorems about the model's contraction: a column of a generalized shell equals the single-column shell, invariance under any permutation of primitives and under splitting a primitive, linearity in the coefficients, normalisation absorbs a positive scale factor and a negative one flips the sign; checks: every public function on a basis and its rewritten-but-equivalent form (all primitive permutations, scale factors 1e-6..1e6 of both signs)",
+         "theorems are about `contract`, through which every block of the model is formed; the implementation is tied by the relational checks and by the correspondences of C01-C08",
+         "Lean 4 proof + metamorphic checks on the implementation"),
+ "C14": ("Lean theorems: a nucleus is dropped iff its distance is below the threshold independent of its charge; the repaired rule Z/d > 1/t differs (counter-examples); size rule of the density matrix with/without transformation; trace identity for rectangular transformations; electronic term = C03; check: electrostatic_potential vs nuclear sum + model point-charge integrals with thresholds bracketing each distance, charges of both signs, points on nuclei, rectangular transforms",
+         "float64 distance computation; ties avoided by bracketing",
+         "Lean 4 proof (decision logic, matrix identity) + differential correspondence"),
+ "C15": ("Lean theorems valid for all alpha, beta at once (differential ring): stress tensor = documented expression and symmetric, Ehrenfest force = -div stress, Ehrenfest Hessian = Jacobian of the force, symmetric option = average with transpose; forms tied to the code by exact probing at 12 (alpha, beta) points incl. all special-cased values (kernel-checked obligation); end-to-end correspondence on real bases",
+         "probing covers a finite set of parameter points; the theorems cover all parameters of the model's forms",
+         "Lean 4 proof + exact-probing translator with decide obligation + differential correspondence"),
+ "C16": ("Lean theorems (Mathlib measure theory on R^3): the model's overlap / moment / kinetic blocks equal the integrals over R^3 of products of exactly the functions (and derivatives) that the evaluation model returns — same primitive norms, component order and sign — for all shells; unit normalisation; check: trapezoid quadrature of the library's own evaluations on a 73^3 grid vs its analytic integrals, tr(gamma S), tr(gamma T)",
+         "quadrature error < 1e-10 for the stated exponent range (assumed; halving h in thorough)",
+         "Lean 4 proof (Fubini/product measure) + numerical quadrature of implementation outputs"),
+ "C17": ("Lean theorems: Gram matrices are symmetric PSD with Cauchy-Schwarz bounds (overlap via C16's identification with the L2 inner product; kinetic as half a Gram matrix of gradients); check: eigenvalues and Schwarz inequalities of the implementation's matrices incl. nearly dependent bases",
+         "PARTIAL: definiteness of point-charge and repulsion matrices is conditional on positivity of the Coulomb kernel (not formalised) and is measured on the implementation",
+         "Lean 4 proof (Gram) + direct eigenvalue measurement"),
+ "C20": ("Lean theorems over the reals: documented cutoff <=> exp(-ab/(a+b) d^2) < tol, monotone in the tolerance, conservative bound for s-type elements; check: blockwise comparison of screened vs unscreened overlap with distances bracketing the cutoff, tolerances 1e-16..0.5, None, transforms, booleans rejected",
+         "float64 evaluation of the cutoff; ties avoided by bracketing",
+         "Lean 4 proof + blockwise differential check"),
 }
 
 NOT_APPLICABLE = {}
 
-PENDING = ["C06", "C09", "C11", "C12", "C13", "C14", "C15", "C16", "C17", "C18", "C19", "C20"]
+PENDING = ["C09", "C18", "C19"]
 
 
 def main():
